@@ -3,7 +3,7 @@
    bodies of its blocks: the hypotheses of the engine theorems hold for every
    such program, not only for the tested ones. *)
 From Coq Require Import ZArith NArith List Bool Arith Lia.
-From Dwgrep Require Import Radix Value Words Tree Engine Build EngineProofs.
+From Dwgrep Require Import Radix Value Words Tree Engine Build Quiet EngineProofs.
 Import ListNotations.
 
 Fixpoint tsize (t : tree) : nat :=
@@ -16,18 +16,36 @@ Fixpoint tsize (t : tree) : nat :=
   | _ => 1
   end.
 
-(* no format string anywhere, and every `,` has at least one branch (the parser never builds an empty one) *)
+(* every `,` has at least one branch (the parser never builds an empty one) *)
 Fixpoint wf_tree (t : tree) : bool :=
   match t with
-  | TCat l | TOr l => (fix all (l : list tree) : bool := match l with [] => true | x :: r => wf_tree x && all r end) l
+  | TCat l | TOr l | TFormat l => (fix all (l : list tree) : bool := match l with [] => true | x :: r => wf_tree x && all r end) l
   | TAlt l => negb (match l with [] => true | _ => false end)
               && (fix all (l : list tree) : bool := match l with [] => true | x :: r => wf_tree x && all r end) l
-  | TFormat _ => false
   | TCapture c | TSubx _ c | TScope c | TBlock _ c | TStar c | TPlus c | TAssert c | TPredNot c | TPredSubx c => wf_tree c
   | TIfElse c a b => wf_tree c && wf_tree a && wf_tree b
   | TPredAnd a b | TPredOr a b => wf_tree a && wf_tree b
   | _ => true
   end.
+
+(* no format string anywhere *)
+Fixpoint nf_tree (t : tree) : bool :=
+  match t with
+  | TCat l | TOr l | TAlt l => (fix all (l : list tree) : bool := match l with [] => true | x :: r => nf_tree x && all r end) l
+  | TFormat _ => false
+  | TCapture c | TSubx _ c | TScope c | TBlock _ c | TStar c | TPlus c | TAssert c | TPredNot c | TPredSubx c => nf_tree c
+  | TIfElse c a b => nf_tree c && nf_tree a && nf_tree b
+  | TPredAnd a b | TPredOr a b => nf_tree a && nf_tree b
+  | _ => true
+  end.
+
+Lemma nf_all_in x : forall l,
+  (fix all (l : list tree) : bool := match l with [] => true | x :: r => nf_tree x && all r end) l = true ->
+  In x l -> nf_tree x = true.
+Proof.
+  induction l as [|y r IH]; intros H Hx; [contradiction|]. apply andb_prop in H. destruct H as [H1 H2].
+  destruct Hx as [->|Hx]; [exact H1|apply IH; assumption].
+Qed.
 
 Lemma tsize_in x : forall l, In x l ->
   tsize x <= (fix sum (l : list tree) : nat := match l with [] => 0 | x :: r => tsize x + sum r end) l.
@@ -101,6 +119,72 @@ Proof.
   - destruct (bfind tc bn nm) as [[b|id]|]; try discriminate.
     + eapply IHl; [|exact EG]. exact Qu.
     + destruct (ufind tc up nm) as [[[b|id] up3]|]; try discriminate. eapply IHl; [|exact EG]. exact Qu.
+Qed.
+
+
+(* the stringer chain of a format string: literals and sub-programs, each on a leaf of its own *)
+Lemma parts_quiet l : (forall x, In x l -> good_build x) -> forall acc bn up st parts bn' up' st',
+  Forall pquiet acc -> Forall quiet (blocks st) ->
+  (fix go (l : list tree) (acc : list part) (bn : bindings) (up : uprefs) (st : bstate) {struct l} :=
+     match l with
+     | [] => BOk (acc, bn, up, st)
+     | TStr s :: rest =>
+       match go rest acc bn up st with
+       | BOk (acc', bn', up', st') => BOk (PLit s :: acc', bn', up', st')
+       | BErr e => BErr e
+       end
+     | ch :: rest =>
+       match go rest acc bn up st with
+       | BOk (acc', bn', up', st') =>
+         match build tc ch MLeaf bn' up' st' with
+         | BOk (m, bn'', up'', st'') => BOk (POp m None None :: acc', bn'', up'', st'')
+         | BErr e => BErr e
+         end
+       | BErr e => BErr e
+       end
+     end) l acc bn up st = BOk (parts, bn', up', st') ->
+  Forall pquiet parts /\ Forall quiet (blocks st').
+Proof.
+  induction l as [|ch rest IH]; intros G acc bn up st parts bn' up' st' Qa Qs H.
+  - inversion H; subst. auto.
+  - assert (forall ac1 bn1 up1 st1,
+      (fix go (l : list tree) (acc : list part) (bn : bindings) (up : uprefs) (st : bstate) {struct l} :=
+     match l with
+     | [] => BOk (acc, bn, up, st)
+     | TStr s :: rest =>
+       match go rest acc bn up st with
+       | BOk (acc', bn', up', st') => BOk (PLit s :: acc', bn', up', st')
+       | BErr e => BErr e
+       end
+     | ch :: rest =>
+       match go rest acc bn up st with
+       | BOk (acc', bn', up', st') =>
+         match build tc ch MLeaf bn' up' st' with
+         | BOk (m, bn'', up'', st'') => BOk (POp m None None :: acc', bn'', up'', st'')
+         | BErr e => BErr e
+         end
+       | BErr e => BErr e
+       end
+     end) rest acc bn up st = BOk (ac1, bn1, up1, st1) -> Forall pquiet ac1 /\ Forall quiet (blocks st1)) as R.
+    { intros ac1 bn1 up1 st1 E. apply (IH (fun x Hx => G x (or_intror Hx)) acc bn up st ac1 bn1 up1 st1 Qa Qs E). }
+    destruct ch;
+      try (match type of H with
+           | match ?X with _ => _ end = _ => destruct X as [[[[ac1 bn1] up1] st1]|e] eqn:E; [|discriminate]
+           end;
+           destruct (R _ _ _ _ eq_refl) as [A B];
+           match type of H with
+           | match ?X with _ => _ end = _ => destruct X as [[[[m1 bn2] up2] st2]|e] eqn:E2; [|discriminate]
+           end;
+           inversion H; subst;
+           match type of E2 with
+           | build tc ?c MLeaf _ _ _ = _ => destruct (G c (or_introl eq_refl) MLeaf _ _ _ _ _ _ _ I B E2) as [Qm Qs2]
+           end;
+           split; [constructor; [cbn [pquiet]; auto|exact A]|exact Qs2]; fail).
+    (* TStr *)
+    match type of H with
+    | match ?X with _ => _ end = _ => destruct X as [[[[ac1 bn1] up1] st1]|e] eqn:E; [|discriminate]
+    end.
+    destruct (R _ _ _ _ eq_refl) as [A B]. inversion H; subst. split; [constructor; [exact I|exact A]|exact B].
 Qed.
 
 Ltac bdestruct H E :=
@@ -211,13 +295,20 @@ Proof.
     destruct (GB t ltac:(lia) Hw MLeaf _ _ _ _ _ _ _ I Qs E1) as [_ S1]. inversion H; subst. exact S1.
   - (* TConst *) split; [|apply PSTUCK; intros; discriminate]. intros upm bn up st m bn' up' st' Qu Qs H. inversion H; subst. auto.
   - (* TStr *) split; [|apply PSTUCK; intros; discriminate]. intros upm bn up st m bn' up' st' Qu Qs H. inversion H; subst. auto.
-  - (* TFormat *) discriminate.
+  - (* TFormat *)
+    split; [|apply PSTUCK; intros; discriminate].
+    assert (forall x, In x l -> good_build x) as G.
+    { intros x Hx. apply GB; [pose proof (tsize_in x l Hx); lia|eapply wf_all_in; eauto]. }
+    intros upm bn up st m bn' up' st' Qu Qs H. cbn [build] in H.
+    match type of H with match ?X with _ => _ end = _ => destruct X as [[[[parts bn1] up1] st1]|e] eqn:E; [|discriminate] end.
+    destruct (parts_quiet l G [] bn up st parts bn1 up1 st1 (Forall_nil _) Qs E) as [A B].
+    inversion H; subst. split; [|exact B]. apply quiet_format. repeat split; auto.
   - (* TDebug *) split; [|apply PSTUCK; intros; discriminate]. intros upm bn up st m bn' up' st' Qu Qs H. inversion H; subst. auto.
   - (* TBuiltin *)
     split; [|apply PB]. intros upm bn up st m bn' up' st' Qu Qs H. destruct b as [pos k|k]; cbn [build] in H; inversion H; subst; cbn [quiet]; repeat split; auto.
 Qed.
 
-(* every program without format strings is built into a pristine chain with pristine block bodies *)
+(* every program is built into a pristine chain with pristine block bodies *)
 Theorem build_program_quiet t m blks : wf_tree t = true -> build_program tc t = BOk (m, blks) ->
   quiet m /\ Forall quiet blks.
 Proof.
@@ -226,5 +317,145 @@ Proof.
   inversion H; subst. destruct (build_good (tsize t) t (le_n _) W) as [G _].
   assert (Forall quiet (blocks (mkbs 0%N []))) as Q0 by (cbn; constructor).
   apply (G MLeaf _ _ _ _ _ _ _ I Q0 E).
+Qed.
+
+(* ---- programs without format strings are built into chains without the format op ---- *)
+Definition nf_build (t : tree) : Prop :=
+  forall upm bn up st m bn' up' st', has_format upm = false ->
+    build tc t upm bn up st = BOk (m, bn', up', st') -> has_format m = false.
+
+Lemma nf_builtin b upm : has_format upm = false -> has_format (build_builtin b upm) = false.
+Proof. intros Q. destruct b as [w|[] w]; [destruct w|..]; cbn; auto. Qed.
+
+Lemma branches_nf l : (forall x, In x l -> nf_build x) -> forall acc bn up st brs bn' up' st',
+  (forall x, In x acc -> has_format x = false) ->
+  (fix go (l : list tree) (acc : list mach) (bn : bindings) (up : uprefs) (st : bstate) {struct l} :=
+     match l with
+     | [] => BOk (acc, bn, up, st)
+     | ch :: rest =>
+       match build tc ch MLeaf bn up st with
+       | BOk (m, bn', up', st') => go rest (acc ++ [m]) bn' up' st'
+       | BErr e => BErr e
+       end
+     end) l acc bn up st = BOk (brs, bn', up', st') ->
+  forall x, In x brs -> has_format x = false.
+Proof.
+  induction l as [|ch rest IH]; intros G acc bn up st brs bn' up' st' Qa H.
+  - inversion H; subst. exact Qa.
+  - destruct (build tc ch MLeaf bn up st) as [[[[m bn1] up1] st1]|e] eqn:E; [|discriminate].
+    pose proof (G ch (or_introl eq_refl) MLeaf bn up st m bn1 up1 st1 eq_refl E) as Qm.
+    apply (IH (fun x Hx => G x (or_intror Hx)) (acc ++ [m]) bn1 up1 st1 brs bn' up' st'); [|exact H].
+    intros x Hx. apply in_app_or in Hx. destruct Hx as [Hx|[<-|[]]]; [apply Qa; exact Hx|exact Qm].
+Qed.
+
+Lemma reads_nf bn : forall (l : list (name * nat)) upm up upm' up', has_format upm = false ->
+  (fix go (l : list (name * nat)) (upm : mach) (up : uprefs) {struct l} :=
+     match l with
+     | [] => BOk (upm, up)
+     | (n, _) :: rest =>
+       match bfind tc bn n with
+       | Some (BdBind id) => go rest (MRead upm id) up
+       | Some (BdBuiltin _) => BErr BStuck
+       | None =>
+         match ufind tc up n with
+         | Some (UFValue id, up') => go rest (MUpread upm id) up'
+         | _ => BErr BStuck
+         end
+       end
+     end) l upm up = BOk (upm', up') -> has_format upm' = false.
+Proof.
+  induction l as [|[nm k] rest IHl]; intros upm up upm' up' Qu EG.
+  - inversion EG; subst. exact Qu.
+  - destruct (bfind tc bn nm) as [[b|id]|]; try discriminate.
+    + eapply IHl; [|exact EG]. exact Qu.
+    + destruct (ufind tc up nm) as [[[b|id] up3]|]; try discriminate. eapply IHl; [|exact EG]. exact Qu.
+Qed.
+
+Lemma any_false_merge : forall brs, (forall x, In x brs -> has_format x = false) ->
+  (fix any (l : list mach) : bool := match l with [] => false | x :: t => has_format x || any t end) brs = false.
+Proof.
+  induction brs as [|y t IHt]; intros H; [reflexivity|]. rewrite (H y (or_introl eq_refl)). cbn [orb].
+  apply IHt. intros x Hx. apply H. right. exact Hx.
+Qed.
+
+Lemma any_false_or : forall brs, (forall x, In x brs -> has_format x = false) ->
+  (fix any (l : list (mach * option stack)) : bool := match l with [] => false | (x, _) :: t => has_format x || any t end)
+    (mk_or_branches brs) = false.
+Proof.
+  induction brs as [|y t IHt]; intros H; [reflexivity|]. cbn [mk_or_branches map]. rewrite (H y (or_introl eq_refl)). cbn [orb].
+  apply IHt. intros x Hx. apply H. right. exact Hx.
+Qed.
+
+Theorem build_nf : forall n t, tsize t <= n -> nf_tree t = true -> nf_build t.
+Proof.
+  induction n as [|n IH]; intros t Hs Hw; [destruct t; cbn in Hs; lia|].
+  assert (forall x, tsize x <= n -> nf_tree x = true -> nf_build x) as GB by (intros x A B; apply (IH x A B)).
+  destruct t; cbn [tsize nf_tree] in Hs, Hw; try discriminate Hw;
+    intros upm bn up st m bn' up' st' Qu H; cbn [build] in H; try discriminate H.
+  - (* TCat *)
+    assert (forall x, In x l -> nf_build x) as G.
+    { intros x Hx. apply GB; [pose proof (tsize_in x l Hx); lia|eapply nf_all_in; eauto]. }
+    clear - G Qu H. revert upm bn up st Qu H. induction l as [|ch rest IHl]; intros upm bn up st Qu H.
+    + inversion H; subst. exact Qu.
+    + bdestruct H E. pose proof (G ch (or_introl eq_refl) _ _ _ _ _ _ _ _ Qu E) as Q1.
+      eapply (IHl (fun x Hx => G x (or_intror Hx))); eauto.
+  - (* TAlt *)
+    assert (forall x, In x l -> nf_build x) as G.
+    { intros x Hx. apply GB; [pose proof (tsize_in x l Hx); lia|eapply nf_all_in; eauto]. }
+    match type of H with match ?X with _ => _ end = _ => destruct X as [[[[brs bn1] up1] st1]|e] eqn:E; [|discriminate] end.
+    pose proof (branches_nf l G [] bn up st brs bn1 up1 st1 (fun x Hx => match Hx with end) E) as A.
+    inversion H; subst. cbn [has_format]. rewrite Qu. cbn [orb]. apply any_false_merge. exact A.
+  - (* TOr *)
+    assert (forall x, In x l -> nf_build x) as G.
+    { intros x Hx. apply GB; [pose proof (tsize_in x l Hx); lia|eapply nf_all_in; eauto]. }
+    match type of H with match ?X with _ => _ end = _ => destruct X as [[[[brs bn1] up1] st1]|e] eqn:E; [|discriminate] end.
+    pose proof (branches_nf l G [] bn up st brs bn1 up1 st1 (fun x Hx => match Hx with end) E) as A.
+    inversion H; subst. cbn [has_format]. rewrite Qu. cbn [orb]. apply any_false_or. exact A.
+  - (* TCapture *)
+    bdestruct H E. pose proof (GB t ltac:(lia) Hw MLeaf _ _ _ _ _ _ _ eq_refl E) as Q1. inversion H; subst. cbn [has_format]. rewrite Qu, Q1. reflexivity.
+  - (* TSubx *)
+    bdestruct H E. pose proof (GB t ltac:(lia) Hw MLeaf _ _ _ _ _ _ _ eq_refl E) as Q1. inversion H; subst. cbn [has_format]. rewrite Qu, Q1. reflexivity.
+  - (* TIfElse *)
+    apply andb_prop in Hw. destruct Hw as [Hw W3]. apply andb_prop in Hw. destruct Hw as [W1 W2].
+    bdestruct H E1. bdestruct H E2. bdestruct H E3.
+    pose proof (GB t1 ltac:(lia) W1 MLeaf _ _ _ _ _ _ _ eq_refl E1) as Q1.
+    pose proof (GB t2 ltac:(lia) W2 MLeaf _ _ _ _ _ _ _ eq_refl E2) as Q2.
+    pose proof (GB t3 ltac:(lia) W3 MLeaf _ _ _ _ _ _ _ eq_refl E3) as Q3.
+    inversion H; subst. cbn [has_format]. rewrite Qu, Q1, Q2, Q3. reflexivity.
+  - (* TScope *)
+    bdestruct H E. pose proof (GB t ltac:(lia) Hw upm _ _ _ _ _ _ _ Qu E) as Q1. inversion H; subst. exact Q1.
+  - (* TBlock *)
+    bdestruct H E.
+    match type of H with match ?X with _ => _ end = _ => destruct X as [[upm' up2]|e] eqn:EG; [|discriminate] end.
+    inversion H; subst. cbn [has_format]. eapply reads_nf; [exact Qu|exact EG].
+  - (* TBind *)
+    destruct (bbind bn n0 (next_id st)); [|discriminate]. inversion H; subst. exact Qu.
+  - (* TRead *)
+    destruct (bfind tc bn n0) as [[b|id]|].
+    + inversion H; subst. apply nf_builtin; exact Qu.
+    + inversion H; subst. exact Qu.
+    + destruct (ufind tc up n0) as [[[b|id] up3]|]; [| |discriminate]; inversion H; subst.
+      * apply nf_builtin; exact Qu.
+      * exact Qu.
+  - (* TNop *) inversion H; subst. exact Qu.
+  - (* TStar *)
+    bdestruct H E. pose proof (GB t ltac:(lia) Hw MLeaf _ _ _ _ _ _ _ eq_refl E) as Q1. inversion H; subst. cbn [has_format]. rewrite Qu, Q1. reflexivity.
+  - (* TPlus *)
+    bdestruct H E. pose proof (GB t ltac:(lia) Hw MLeaf _ _ _ _ _ _ _ eq_refl E) as Q1. inversion H; subst. cbn [has_format]. rewrite Qu, Q1. reflexivity.
+  - (* TAssert *)
+    match type of H with match ?X with _ => _ end = _ => destruct X as [[[[pm bn1] up1] st1]|e] eqn:E; [|discriminate] end.
+    inversion H; subst. exact Qu.
+  - (* TEmptyList *) inversion H; subst. exact Qu.
+  - (* TConst *) inversion H; subst. exact Qu.
+  - (* TStr *) inversion H; subst. exact Qu.
+  - (* TDebug *) inversion H; subst. exact Qu.
+  - (* TBuiltin *) destruct b as [pos k|k]; cbn [build] in H; inversion H; subst; exact Qu.
+Qed.
+
+Theorem build_program_nf t m blks : nf_tree t = true -> build_program tc t = BOk (m, blks) -> has_format m = false.
+Proof.
+  intros W H. unfold build_program in H.
+  destruct (build tc t MLeaf (mkbn [[]] true) UTop (mkbs 0%N [])) as [[[[m1 bn1] up1] st1]|e] eqn:E; [|discriminate].
+  inversion H; subst. apply (build_nf (tsize t) t (le_n _) W MLeaf _ _ _ _ _ _ _ eq_refl E).
 Qed.
 End B.
